@@ -4,6 +4,7 @@
 -/
 import Cctz.Model.Tz
 import Cctz.Spec.TableSem
+import Cctz.Spec.TableTame
 import Cctz.Proofs.TableCivil
 
 namespace Cctz.C02
@@ -16,9 +17,11 @@ def farApart_separated_statement : Prop :=
     Separated z
 
 /-- lookup(cs) classifies by the number of instants (over all integers) that display cs, and its
-three fields are those instants / the responsible change, clamped to the time_point range -/
+three fields are those instants / the responsible change, clamped to the time_point range.
+(`TimesInRange`: the table's instants are int64 values — see `makeTime_needs_TimesInRange`.) -/
 def makeTime_statement : Prop :=
-  ∀ (z : Zone) (h : Nat) (cs : Fields), TableWF z → CivilCols z → Separated z → Valid cs → NoShift z cs →
+  ∀ (z : Zone) (h : Nat) (cs : Fields), TableWF z → CivilCols z → Separated z → TimesInRange z →
+    Valid cs → NoShift z cs →
     let r := (makeTime z h cs).val.1
     let x := secNum cs
     match r.kind with
@@ -32,12 +35,14 @@ def makeTime_statement : Prop :=
         r.trans = timeOf z i ∧ r.pre = x - offBefore z i ∧ r.post = x - offOf z i ∧
         r.pre < r.trans ∧ r.trans ≤ r.post
 
-/-- the shift path: a civil second after the last generated year is looked up 400·s years
+/-- the shift path: a civil second after the last generated year (and not before the civil second
+of the last table entry — see `shift_needs_after_last`) is looked up 400·s years
 earlier and the three instants are moved forward by s cycles with saturation at max() -/
 def shift_statement : Prop :=
   ∀ (z : Zone) (h : Nat) (cs : Fields) (ly : Int), TableWF z → CivilSorted z → Valid cs →
     z.extended = true → z.lastYear = some ly → cs.y > ly →
     Civil.lt (trn z (z.transitions.size - 1)).prevCivilSec cs = true →
+    Civil.lt cs (trn z (z.transitions.size - 1)).civilSec = false →
     let s := (cs.y - ly - 1) / 400 + 1
     let cs' : Fields := { cs with y := cs.y - 400 * s }
     let r' := (makeTime z h cs').val.1
@@ -46,5 +51,40 @@ def shift_statement : Prop :=
     r.pre = (if s > 730692561 ∨ r'.pre + s * 12622780800 > i64max then i64max else r'.pre + s * 12622780800) ∧
     r.trans = (if s > 730692561 ∨ r'.trans + s * 12622780800 > i64max then i64max else r'.trans + s * 12622780800) ∧
     r.post = (if s > 730692561 ∨ r'.post + s * 12622780800 > i64max then i64max else r'.post + s * 12622780800)
+
+end Cctz.C02
+
+namespace Cctz.C02
+open Cctz Cctz.Tz Cctz.Spec Cctz.Tc
+
+theorem farApart_separated : farApart_separated_statement := by
+  intro z _ far hc i hi
+  have h := far i hi
+  have hs := offBefore_succ z i
+  refine ⟨hc i hi, ?_, ?_⟩ <;> omega
+
+theorem makeTime : makeTime_statement := by
+  intro z h cs wf cols sep tir vcs ns
+  have ho := makeTime_outcome z h cs wf cols sep vcs ns
+  intro r x
+  cases ho with
+  | unique k hk h1 h2 hr =>
+    have hr' : r = mkUnique (uval z k x) := hr
+    rw [hr']
+    refine ⟨x - offBefore z k, unique_shows wf sep hk h1 h2, ?_⟩
+    have := uval_eq_clamp wf tir hk (fun h => (h1 h).1) (fun h => (h2 h).2)
+    exact ⟨this, this, this⟩
+  | skipped k hk h1 h2 hr =>
+    have hr' : r = ⟨.skipped, x - offBefore z k, timeOf z k, x - offOf z k⟩ := hr
+    rw [hr']
+    refine ⟨skipped_shows wf sep hk h1 h2, k, hk, rfl, rfl, rfl, ?_, ?_⟩
+    · show x - offBefore z k ≥ timeOf z k; omega
+    · show timeOf z k > x - offOf z k; omega
+  | repeated i hi h1 h2 hr =>
+    have hr' : r = ⟨.repeated, x - offBefore z i, timeOf z i, x - offOf z i⟩ := hr
+    rw [hr']
+    refine ⟨i, hi, repeated_shows wf sep hi h1 h2, rfl, rfl, rfl, ?_, ?_⟩
+    · show x - offBefore z i < timeOf z i; omega
+    · show timeOf z i ≤ x - offOf z i; omega
 
 end Cctz.C02
